@@ -17,10 +17,11 @@ def build_case(rng, max_depth, max_nodes):
     return body, dict(g.funcs), g
 
 
-def in_known_region(body, funcs):
+def in_known_region(body, funcs, body_in_subshell=False):
     """Structural predicates for the regions of open known findings (see known_findings.json, C02-*)."""
     found = []
     in_cond = [0]
+    negated = [0]
 
     def rec(n, ld, in_func, in_sub):
         k = n[0]
@@ -33,6 +34,8 @@ def in_known_region(body, funcs):
                     found.append("loopctl-outside-loop")      # incl. in a function called from a loop, in a subshell in a loop
                 elif lv is not None and lv > ld:
                     found.append("level-beyond-depth")
+            if kw == "return" and in_sub and negated[0]:
+                found.append("negated-return-in-subshell")       # open finding C02-F10
             return
         if k == "seq":
             for c in n[1]:
@@ -41,7 +44,9 @@ def in_known_region(body, funcs):
             rec(n[1], ld, in_func, in_sub)
             rec(n[2], ld, in_func, in_sub)
         elif k == "not":
+            negated[0] += 1
             rec(n[1], ld, in_func, in_sub)
+            negated[0] -= 1
         elif k == "if":
             rec(n[1], ld, in_func, in_sub)
             rec(n[2], ld, in_func, in_sub)
@@ -63,12 +68,16 @@ def in_known_region(body, funcs):
         elif k == "group":
             rec(n[1], ld, in_func, in_sub)
         elif k == "subshell":
+            saved, negated[0] = negated[0], 0
             rec(n[1], 0, in_func, True)
+            negated[0] = saved
         elif k == "pipe":
+            saved, negated[0] = negated[0], 0
             for c in n[1]:
                 rec(c, 0, in_func, True)
+            negated[0] = saved
 
-    rec(body, 0, False, False)
+    rec(body, 0, False, body_in_subshell)
     for fb in funcs.values():
         # a function body that contains a subshell'd `case` is only a problem when... always (parse time)
         rec(fb, 0, True, False)
